@@ -14,6 +14,9 @@ Decided here (necessary structural conditions, DESIGN.md section 5/C01):
   C01-R4  fixed-point loops run to stabilisation (shared with C11);
   C01-R5  every entry point hands eval_node the steady states of the graph it evaluates on ("a state without outgoing
           transitions carries a self-loop"), computed unconditionally (exception: the documented unsafe entry point).
+  C01-R6  a value served from the cache belongs to the sub-formula it is served for: reader and writer build the key by the same recipe,
+          and a duplicate is recorded only for sub-formulae with at most one variable (sequential renaming on a hit is only sound then;
+          shared with C04-R2).
 Not decided: that the graph library's pre-images are those of the asynchronous semantics (L1, L2)."""
 import evalnode as E
 import lowlevel
